@@ -509,6 +509,44 @@ fn run_cases(mut cases: Vec<Case>, root: &Path, st: &mut Stats, tag: &str) {
     for c in cases.iter_mut() { if let Some(b) = c.bindings.take() { let _ = std::fs::remove_file(b); } }
 }
 
+/// corpus/C01: fixed shapes with their own flag lines, run first
+fn part_k(root: &Path, st: &mut Stats) {
+    let dir = Path::new(&std::env::var("VERIF_DIR").unwrap_or_else(|_| "/verif".into())).join("corpus/C01");
+    let mut files: Vec<PathBuf> = std::fs::read_dir(&dir).map(|d| d.filter_map(|e| e.ok()).map(|e| e.path()).filter(|p| p.extension().is_some_and(|e| e == "h" || e == "hpp")).collect()).unwrap_or_default();
+    files.sort();
+    let s = Scratch(root.join("k"));
+    std::fs::create_dir_all(&s.0).unwrap();
+    let mut cases = vec![];
+    for (fi, f) in files.iter().enumerate() {
+        let text = std::fs::read_to_string(f).unwrap_or_default();
+        let cpp = f.extension().is_some_and(|e| e == "hpp");
+        let stem = f.file_stem().unwrap().to_string_lossy().into_owned();
+        let hp = s.path(&format!("{stem}.{}", if cpp { "hpp" } else { "h" }));
+        util::write(&hp, &text);
+        for (k, line) in text.lines().filter_map(|l| l.strip_prefix("// bindgen-flags:")).enumerate() {
+            let all = util::shell_split(line);
+            let (pre, post): (Vec<String>, Vec<String>) = match all.iter().position(|x| x == "--") { Some(i) => (all[..i].to_vec(), all[i + 1..].to_vec()), None => (all.clone(), vec![]) };
+            let edition = pre.iter().position(|x| x == "--rust-edition").and_then(|i| pre.get(i + 1)).cloned().unwrap_or_else(|| "2021".into());
+            let mut flags: Vec<String> = vec![hp.to_string_lossy().into_owned(), "--formatter".into(), "prettyplease".into()];
+            flags.extend(pre.iter().cloned());
+            flags.push("--".into());
+            flags.extend(post.iter().cloned());
+            let out = generate_with_flags(&flags, None);
+            st.bump("corpus_runs", 1);
+            let mut case = Case { name: format!("corpus:{stem}:{k}"), cpp, header: text.clone(), flags: pre.clone(), clang_args: post.clone(), edition, blocklisted: vec![], facts: Facts::default(), origin: "corpus".into(), bindings: None };
+            match out.bindings {
+                Some(b) => { let bp = s.path(&format!("k{fi}_{k}.rs")); util::write(&bp, &b); case.bindings = Some(bp); }
+                None => {
+                    if let Some(p) = out.panic { st.bump("bindgen_panics", 1); panic_triage(&case, &p, st); }
+                    else { st.fail("oracle", "bindgen-failed", format!("corpus case: {:?}", out.error), &case); }
+                }
+            }
+            cases.push(case);
+        }
+    }
+    run_cases(cases, root, st, "k_");
+}
+
 fn part_g(args: &Args, root: &Path, st: &mut Stats) {
     let mut r = Rng::new(args.seed ^ 0x6E6);
     let n = if args.thorough() { 1200 } else { 170 };
@@ -623,6 +661,7 @@ fn main() {
     let mut st = Stats::default();
     let only: Option<String> = args.extra.iter().find_map(|a| a.strip_prefix("--only=").map(|s| s.to_owned()));
     let want = |p: &str| only.as_deref().map_or(true, |o| o.split(',').any(|x| x == p));
+    if want("k") { part_k(&root, &mut st); }
     if want("m") { part_m(&args, &root, &mut st); }
     if want("g") { part_g(&args, &root, &mut st); }
     if want("r") { part_r(&args, &root, &mut st); }
